@@ -239,11 +239,14 @@ func runCase(p *Prop, seed int64, tier string, index int, scratch string, verbos
 	return res
 }
 
-// panicFromRepo: is the first non-runtime frame below the panic call in reduction code?
+// panicFromRepo: is the first non-runtime frame below the panic call located in a file of the
+// repository under test? (File paths are used, not function names: iterator closures of repo code
+// inlined into harness functions carry harness-looking names.)
 func panicFromRepo(stack string) bool {
 	lines := strings.Split(stack, "\n")
 	seenPanic := false
-	for _, l := range lines {
+	for i := 0; i+1 < len(lines); i++ {
+		l := lines[i]
 		if strings.HasPrefix(l, "panic(") {
 			seenPanic = true
 			continue
@@ -251,12 +254,21 @@ func panicFromRepo(stack string) bool {
 		if !seenPanic || strings.HasPrefix(l, "\t") || l == "" {
 			continue
 		}
-		if strings.HasPrefix(l, "runtime.") || strings.HasPrefix(l, "runtime/") {
+		file := strings.TrimSpace(lines[i+1])
+		if strings.Contains(file, "/src/runtime/") {
 			continue
 		}
-		return strings.HasPrefix(l, "reduction.dev/reduction/") || strings.HasPrefix(l, "reduction.dev/reduction.")
+		return strings.HasPrefix(file, RepoDir()+"/")
 	}
 	return false
+}
+
+// RepoDir is the directory of the repository under test.
+func RepoDir() string {
+	if d := os.Getenv("VERIF_REPO_DIR"); d != "" {
+		return d
+	}
+	return "/repo"
 }
 
 func trimStack(st string) string {
